@@ -19,7 +19,7 @@ import (
 func init() {
 	register(&Check{
 		ID: "C18", Level: "model_checking", QuickSecs: 170, ThoroughSecs: 1500,
-		Rule:        "Controlled scheduler over real goroutines calling Parse on ONE loaded grammar of one runtime variant package. Scenarios (each forces a collision on something shared): s1 state grammar backtracking over #{} with different inputs; s2 the same with a Cloner value in InitState on one side; s3 Memoize(true) next to default options; s4 left-recursive grammar with state (leader loop clones per iteration); s5 Statistics/Debug on one side; s6 different Entrypoints; s7 a block that panics under Recover(true) while cloned states are held; s8 three concurrent calls; s9 Statistics on both sides with a recovery-side choice reached by throws from two rules; s10/s11 calls through ParseReader on a grammar without actions (values are the matched input bytes), standard and -optimize-parser, a failing call among them. Mode A: scheduling points at every state-pool Get/Put and every code block call, environment choice at Get (any pooled map, or a fresh one) - explored WITHOUT a preemption bound using state-key pruning (key = step counter of every thread + number of pooled maps); the three-call scenario has deviation bound 3 in the quick tier. Mode B: additionally a scheduling point at every tick (entry of every parser method and every loop iteration) - plain DFS with iterative preemption bound 0,1,(2). Every execution starts cold (all package-level variables of the runtime re-initialised). Oracle on every execution: each call's observation (value, errors, block log with state snapshots) equals the observation of the same call run alone; pool discipline monitor silent (no map Put twice, none non-empty from Get); deep dump of the grammar value g identical before and after; the value each finished call returned is canonicalised AGAIN after all calls have ended and must not have changed (no memory shared with another call). A free-running pass of the same scenarios with the real sync.Pool under the Go race detector (sampling, supporting evidence only) must report no race.",
+		Rule:        "Controlled scheduler over real goroutines calling Parse on ONE loaded grammar of one runtime variant package. Scenarios (each forces a collision on something shared): s1 state grammar backtracking over #{} with different inputs; s2 the same with a Cloner value in InitState on one side; s3 Memoize(true) next to default options; s4 left-recursive grammar with state (leader loop clones per iteration); s5 Statistics/Debug on one side; s6 different Entrypoints; s7 a block that panics under Recover(true) while cloned states are held; s8 three concurrent calls; s9 Statistics on both sides with a recovery-side choice reached by throws from two rules; s10/s11 calls through ParseReader on a grammar without actions (values are the matched input bytes), standard and -optimize-parser, a failing call among them. Mode A: scheduling points at every state-pool Get/Put and every code block call, environment choice at Get (any pooled map, or a fresh one) - explored WITHOUT a preemption bound using state-key pruning (key = step counter of every thread + number of pooled maps); the three-call scenario has deviation bound 3 in the quick tier. Mode B: additionally a scheduling point at every tick (entry of every parser method and every loop iteration) - plain DFS with iterative preemption bound 0,1,(2). Every execution starts cold (all package-level variables of the runtime re-initialised). Oracle on every execution: each call's observation (value, errors, block log with state snapshots) equals the observation of the same call run alone; pool discipline monitor silent (no map Put twice, none non-empty from Get); deep dump of the grammar value g identical before and after; the value each finished call returned is canonicalised AGAIN after all calls have ended and must not have changed (no memory shared with another call). A free-running pass of the same scenarios with the real sync.Pool under the Go race detector (sampling, supporting evidence only) must report no race. Scenario s12: a throw recovered by an inline recovery expression that binds a label. Sequential histories: every ordered pair (and every triple over a reduced alphabet) of ~80 calls - inputs matching / failing / invalid, Memoize, Statistics, Debug, Recover(false), ParseReader, option lists of a wrapper (opposites first, doubled), a panicking action, EVERY MaxExpressions budget 1..40 - on four grammar / flag variants; the last call must return what it returns as first call of a process.",
 		Assumptions: []string{"goroutines are serialised at hooked operations; memory-model effects between hooks are only covered by the free-running -race pass", "pruning key soundness: pooled maps are empty and unreferenced while the discipline monitor is silent"},
 		Run:         runC18,
 		Post:        postC18,
